@@ -435,6 +435,10 @@ def eq(a: V, b: V):
     """z3 Bool for python `a == b` on modelled values (structural)."""
     if a is b:
         return z3.BoolVal(True)
+    if isinstance(a, (Fn, ModV)) or isinstance(b, (Fn, ModV)):
+        if isinstance(a, Fn) and isinstance(b, Fn) and a.kind == b.kind and a.kind in ("class", "repo", "builtin") :
+            return z3.BoolVal(a.data == b.data)
+        raise Unsupported("equality involving a callable / unmodelled attribute")
     if isinstance(a, Opt) or isinstance(b, Opt):
         an, bn = is_none(a), is_none(b)
         av, bv = strip_opt(a), strip_opt(b)
